@@ -8,7 +8,7 @@ MANIFEST = dict(
    note="PARTIAL. The Go memory model, the sync primitives and the scheduler are not modelled (locks in the deadlock model are exclusive and non-re-entrant); the translator is a syntactic approximation (locks held = Lock/RLock seen earlier in the same function and not yet released; calls and fields resolved by name; mutation through methods of package-level values of foreign types only listed). 'Every result equals the run-alone result' is proved for the registry/configuration model and otherwise checked by the runs: -race scenarios (hand-written, one per shared location with callable accessors, one per conflict of the regenerated table, first-use scenarios over fresh struct types / JSON-Schema documents / 249 generated constructor calls compared with a cold run-alone process) and recorded histories, which observe only the schedules that happen. Trusted: Lean kernel, axioms propext/Classical.choice/Quot.sound, go/ast translator, Go race detector, porcupine (support).",
    design="DESIGN.md §5 C14", category="proof")
 
-MODULES = ["Gozod.Proofs.C14", "Gozod.Proofs.C14Order", "Gozod.Proofs.C14Lin", "Gozod.Proofs.C14RW"]
+MODULES = ["Gozod.Proofs.C14", "Gozod.Proofs.C14Order", "Gozod.Proofs.C14Lin", "Gozod.Proofs.C14RW", "Gozod.Proofs.C14Schema"]
 THEOREMS = [
     "Gozod.C14.c14_racefree", "Gozod.C14.c14_racefree_table", "Gozod.C14.c14_schema_ops_read_only", "Gozod.C14.conflicts_complete",
     "Gozod.C14.locales_unsynchronised", "Gozod.C14.locales_synchronised", "Gozod.C14.lazy_cache_unsynchronised",
@@ -24,6 +24,9 @@ THEOREMS = [
     # sync.RWMutex against the atomic-step model and the exclusive-lock model (Proofs/C14RW.lean)
     "Gozod.C14.rw_reads_stable", "Gozod.C14.rw_section_result", "Gozod.C14.rw_run_atomic",
     "Gozod.C14.enabled_forget", "Gozod.C14.stepR_forget", "Gozod.C14.no_deadlock_rw",
+    # schema operations over the regenerated C08 method table and C12 converter tables (Proofs/C14Schema.lean)
+    "Gozod.C14.c14_chain_table_fresh", "Gozod.C14.c14_chain_table_recv_writes", "Gozod.C14.c14_registry_writes_locked",
+    "Gozod.C14.c14_convert_table_private", "Gozod.C14.c14_schema_ops_table",
 ]
 GEN = os.path.join(C.LEAN, "Gozod", "Gen", "LockSets.lean")
 GEN_ORDER = os.path.join(C.LEAN, "Gozod", "Gen", "LockOrder.lean")
